@@ -287,12 +287,12 @@ def runner_main(argv) -> int:
     if "text_sha" in out and variant == "a":
         reps = []
 
-        def again(tag, cls_list):
+        def again(tag, cls_list, diagram=None):
             from krrood.class_diagrams.class_diagram import ClassDiagram
             from krrood.ormatic.ormatic import ORMatic
             rec = {"step": tag}
             try:
-                o2 = ORMatic(ClassDiagram(list(cls_list)))
+                o2 = ORMatic(diagram if diagram is not None else ClassDiagram(list(cls_list)))
                 o2.make_all_tables()
                 g2 = inspect_ormatic(o2)
                 p2 = os.path.join(d_dir, f"{d['module']}_iface_{variant}_{tag}.py")
@@ -303,11 +303,16 @@ def runner_main(argv) -> int:
             except BaseException as ex:  # noqa
                 rec["error"] = type(ex).__name__ + ": " + str(ex)[:200].replace("\n", " ")
             return rec
-        plan = d.get("repeat", ["same"])
+        plan = d.get("repeat", ["same", "shared"])
         try:
             for k, step in enumerate(plan):
                 if step == "same":          # fresh ClassDiagram + fresh ORMatic, same classes, same order
                     r2 = again(f"r{k}", classes)
+                    same = r2.get("text_sha") == out["text_sha"] and r2.get("gen") == out["gen"]
+                    reps.append({"step": step, "same": same, "text_sha": r2.get("text_sha"), "error": r2.get("error"),
+                                 "gen": None if same else r2.get("gen")})
+                elif step == "shared":      # a second ORMatic over the SAME ClassDiagram instance
+                    r2 = again(f"s{k}", classes, diagram=cd)
                     same = r2.get("text_sha") == out["text_sha"] and r2.get("gen") == out["gen"]
                     reps.append({"step": step, "same": same, "text_sha": r2.get("text_sha"), "error": r2.get("error"),
                                  "gen": None if same else r2.get("gen")})
@@ -361,7 +366,7 @@ def model_term(d) -> str:
             sh = {"plain": "SPlain", "opt": "SOpt", "list": "SList", "set": "SSet"}[f["shape"]]
             fs.append(f"{{| f_name := {gstr(f['name'])}; f_shape := {sh}; f_ep := {ep_term(d, f['ep'])}; "
                       f"f_default := {'true' if f.get('default', True) else 'false'} |}}")
-        cs.append(f"{{| c_name := {gstr(n)}; c_module := {gstr(d['module'])}; c_bases := {gstrs([c['base']] if c['base'] else [])}; "
+        cs.append(f"{{| c_name := {gstr(n)}; c_module := {gstr(d['module'])}; c_bases := {gstrs(chain(d, n))}; "
                   f"c_fields := [{'; '.join(fs)}] |}}")
     return "[" + ";\n   ".join(cs) + "]"
 
@@ -429,6 +434,34 @@ def chain(d, name) -> List[str]:
     return out
 
 
+def is_mapped_cls(c) -> bool:
+    return c.get("mapped", True)
+
+
+def mapped_parent(d, name) -> Optional[str]:
+    """first mapped class on the MRO (what WrappedTable.parent_table resolves to)"""
+    by = {c["name"]: c for c in d["classes"]}
+    for a in chain(d, name):
+        if is_mapped_cls(by[a]):
+            return a
+    return None
+
+
+def has_unmapped_intermediate(d) -> bool:
+    by = {c["name"]: c for c in d["classes"]}
+    return any(is_mapped_cls(c) and c["base"] and not is_mapped_cls(by[c["base"]]) and mapped_parent(d, c["name"]) for c in d["classes"])
+
+
+def parents_first(d, order) -> bool:
+    seen = set()
+    for n in order:
+        p = mapped_parent(d, n)
+        if p and p not in seen:
+            return False
+        seen.add(n)
+    return True
+
+
 def own_public(d, c) -> list:
     by = {x["name"]: x for x in d["classes"]}
     inh = {f["name"] for a in chain(d, c["name"]) for f in by[a]["fields"]}
@@ -436,12 +469,13 @@ def own_public(d, c) -> list:
 
 
 def features(d) -> Dict[str, bool]:
-    names = {c["name"] for c in d["classes"]}
+    mapped = [c for c in d["classes"] if is_mapped_cls(c)]
+    names = {c["name"] for c in mapped}
     ft = {k: False for k in ("K_selfcoll", "K_nobuiltin", "K_fkalias", "K_reserved", "K_pkname", "K_discname", "K_casefold", "K_assocname")}
-    has_child = {c["base"] for c in d["classes"] if c["base"]}
-    tnames = [(c["name"] + "DAO").lower() for c in d["classes"]]
+    has_child = {mapped_parent(d, c["name"]) for c in mapped}
+    tnames = [(c["name"] + "DAO").lower() for c in mapped]
     any_builtin = False
-    for c in d["classes"]:
+    for c in mapped:
         own = own_public(d, c)
         onames = [f["name"] for f in own]
         for f in own:
@@ -458,9 +492,9 @@ def features(d) -> Dict[str, bool]:
                 ft["K_reserved"] = True
             if f["name"] == "database_id":
                 ft["K_pkname"] = True
-            if f["name"] == "polymorphic_type" and c["base"] is None and c["name"] in has_child:
+            if f["name"] == "polymorphic_type" and mapped_parent(d, c["name"]) is None and c["name"] in has_child:
                 ft["K_discname"] = True
-    low = [c["name"].lower() for c in d["classes"]]
+    low = [c["name"].lower() for c in mapped]
     ft["K_casefold"] = len(set(low)) != len(low)
     ft["K_nobuiltin"] = not any_builtin
     ft["K_assocname"] = (not ft["K_casefold"]) and len(set(tnames)) != len(tnames)
@@ -475,8 +509,10 @@ def shape_stats(d) -> Dict[str, int]:
     depth = max(len(chain(d, c["name"])) for c in d["classes"])
     inc(f"depth{depth}")
     inc(f"classes{len(d['classes'])}")
-    if d["order"] != [c["name"] for c in d["classes"]]:
+    if d["order"] != [c["name"] for c in d["classes"] if is_mapped_cls(c)]:
         inc("order_not_definition")
+    if has_unmapped_intermediate(d):
+        inc("unmapped_intermediate")
     per_target: Dict[Tuple[str, str], int] = {}
     for c in d["classes"]:
         anc = chain(d, c["name"])
@@ -579,6 +615,14 @@ def gen_model(rng, idx: int, allow_k: bool) -> dict:
             f["default"] = dflt
             fs.append(f)
         classes.append({"name": n, "base": base[n], "fields": fs})
+    # an unmapped (not handed to ClassDiagram), field-less dataclass between a class and its base
+    if rng.chance(0.3):
+        cands = [c for c in classes if c["base"]]
+        if cands:
+            c = rng.choice(cands)
+            mix = {"name": "Mix" + c["name"], "base": c["base"], "fields": [], "mapped": False}
+            c["base"] = mix["name"]
+            classes.insert(classes.index(c), mix)
     d = {"module": f"c06m_{idx}", "enums": enums, "classes": classes}
     if not allow_k:
         # keep the model inside F: no x/x_id aliasing (models without any builtin scalar are inside F since b804898)
@@ -593,7 +637,8 @@ def gen_model(rng, idx: int, allow_k: bool) -> dict:
     rng.shuffle(sh)
     d["order_shuffled"] = sh
     # generations repeated in the same interpreter: always one more; for some models a third one, also after another model
-    d["repeat"] = rng.choice([["same"], ["same"], ["same", "same"], ["other", "same"], ["same", "other", "same"]])
+    d["repeat"] = rng.choice([["same", "shared"], ["shared", "same"], ["shared"], ["same", "same"], ["other", "same", "shared"],
+                              ["same", "other", "shared"], ["shared", "other", "same"]])
     return d
 
 
@@ -676,7 +721,7 @@ def evaluate(rep, descrs: List[dict], model_ok: bool, label: str, det_fraction: 
     # model / spec
     exprs = []
     for d, r in zip(descrs, main_res):
-        order = [t["cls"] for t in r["gen"]["tables"]] if "gen" in r else [c["name"] for c in d["classes"]]
+        order = [t["cls"] for t in r["gen"]["tables"]] if "gen" in r else [c["name"] for c in d["classes"] if is_mapped_cls(c)]
         if model_ok:
             exprs.append(f"let M := {model_term(d)} in let o := {gstrs(order)} in\n"
                          f"   SL [case_gen M o; case_obs M o; spec_obs M; case_info M o]")
@@ -739,6 +784,8 @@ def _judge(rep, rec, model_ok: bool, findings_seen: Dict[str, int]) -> str:
                 base["generator_vs_model"] = {"impl": D(impl_gen), "model": D(rec["model_gen"])}
                 if not any(o.name == "correspondence:model" and not o.ok for o in rep.obligations):
                     rep.oblige("correspondence:model", False, f"ORMatic's tables/columns/association tables/imports differ from the Gallina model, first on {d['module']}")
+            elif not topo_ok and has_unmapped_intermediate(d) and not parents_first(d, [t["cls"] for t in r["gen"]["tables"]]):
+                kclasses = ["K_unmappedorder"] + kclasses      # C06-i: emission order ignores parents reached through unmapped bases
             elif not topo_ok:
                 rep.violation(dict(base, kind="counterexample", impl=D(impl_gen),
                                    explanation="tables are not emitted parents-first / not one table per class"))
@@ -767,7 +814,7 @@ def _judge(rep, rec, model_ok: bool, findings_seen: Dict[str, int]) -> str:
     return "violation"
 
 
-def judge_determinism(rep, rec) -> bool:
+def judge_determinism(rep, rec, findings_seen=None) -> bool:
     if not rec["det"]:
         return True
     if len(rep.violations) >= MAX_REPLAYS:
@@ -780,6 +827,13 @@ def judge_determinism(rep, rec) -> bool:
                        "explanation": f"non-deterministic generation: file text differs between two fresh processes with different PYTHONHASHSEED "
                                       f"({r.get('text_sha')} vs {h.get('text_sha')}, second stage={h.get('stage')} {h.get('error')})"})
         ok = False
+    if "gen" in r and "gen" in s and has_unmapped_intermediate(d) and canon_gen(enc_gen(s["gen"])) == canon_gen(enc_gen(r["gen"])) \
+            and enc_obs(s) != enc_obs(r) and [0] in (enc_obs(s), enc_obs(r)) \
+            and not all(parents_first(d, [t["cls"] for t in x["gen"]["tables"]]) for x in (r, s)):
+        # C06-i seen through the hand-over order: same tables, but one of the two emission orders puts a derived DAO first
+        if findings_seen is not None:
+            findings_seen["K_unmappedorder"] = findings_seen.get("K_unmappedorder", 0) + 1
+        return ok
     if "gen" in r and ("gen" not in s or canon_gen(enc_gen(s["gen"])) != canon_gen(enc_gen(r["gen"])) or enc_obs(s) != enc_obs(r)):
         rep.violation({"kind": "counterexample", "case": d, "python": snippet(d),
                        "explanation": "generation depends on the order in which the classes are handed to ClassDiagram: tables / mapped layer differ "
@@ -794,7 +848,7 @@ def judge_repeat(rep, rec) -> bool:
     reps = r.get("repeat")
     if reps is None:
         return True
-    rep.extra["same_process_regenerations"] = rep.extra.get("same_process_regenerations", 0) + len([x for x in reps if x["step"] == "same"])
+    rep.extra["same_process_regenerations"] = rep.extra.get("same_process_regenerations", 0) + len([x for x in reps if x["step"] in ("same", "shared")])
     bad = [x for x in reps if not x.get("same")]
     if not bad:
         return True
@@ -808,11 +862,11 @@ def judge_repeat(rep, rec) -> bool:
         diff = [{"class": t["cls"], "first": {k: first[t["cls"]][k] for k in ("builtin", "custom", "fks", "rels", "mapper")},
                  "again": {k: t[k] for k in ("builtin", "custom", "fks", "rels", "mapper")}}
                 for t in b["gen"]["tables"] if t["cls"] in first and t != first[t["cls"]]][:3]
-    rep.violation({"kind": "counterexample", "case": d, "python": snippet(d), "repeat_plan": d.get("repeat", ["same"]),
+    rep.violation({"kind": "counterexample", "case": d, "python": snippet(d), "repeat_plan": d.get("repeat", ["same", "shared"]),
                    "steps": [{k: v for k, v in x.items() if k != "gen"} for x in reps], "first_text_sha": r.get("text_sha"),
                    "tables_that_differ": diff,
-                   "explanation": "generation is not a function of the model: a further generation in the SAME interpreter (fresh ClassDiagram "
-                                  "and fresh ORMatic over the same class objects, step '%s' of the plan) does not reproduce the first one "
+                   "explanation": "generation is not a function of the model: a further generation in the SAME interpreter ('same' = fresh "
+                                  "ClassDiagram and fresh ORMatic over the same class objects, 'shared' = a second ORMatic over the same ClassDiagram; step '%s' of the plan) does not reproduce the first one "
                                   "(file text and/or ORMatic containers differ; error=%s)" % (b.get("step"), b.get("error"))})
     return False
 
@@ -849,7 +903,7 @@ def run(tier: str, seed: int, replay=None) -> int:
                   "the emission order handed to the model is the one observed from rustworkx.topological_sort; the model checks it is parents-first"]
     rep.rule = ("random class models (1-5 classes, 0-6 fields each over scalars/Optional/enums/datetime/JSON lists/references/Optional references/"
                 "collections/private fields/redeclared inherited fields, inheritance depth 0-3, self and mutual references, several collections of one "
-                "target, shuffled hand-over order); one fresh subprocess per model, in which the layer is generated 2-4 times (plans: same / same,same / other,same / same,other,same); distinct = distinct model text; non-trivial = at least one table "
+                "target, shuffled hand-over order); one fresh subprocess per model, in which the layer is generated 2-4 times (steps: same = fresh ClassDiagram+ORMatic, shared = second ORMatic on the same ClassDiagram, other = a different model in between); distinct = distinct model text; non-trivial = at least one table "
                 "with a relationship or inheritance")
     ok_spec, log = core.coq_make(["Base/Sx.vo", "Orm/SchemaSpec.vo"])
     rep.oblige("build:spec", ok_spec, "" if ok_spec else core.first_error(log))
@@ -912,7 +966,7 @@ def run(tier: str, seed: int, replay=None) -> int:
         for rec in recs:
             d = rec["d"]
             lab = judge(rep, rec, model_ok, findings_seen)
-            judge_determinism(rep, rec)
+            judge_determinism(rep, rec, findings_seen)
             if not judge_repeat(rep, rec):
                 lab = "not-reproducible"
             labels[lab] = labels.get(lab, 0) + 1
